@@ -26,6 +26,11 @@
                                (`value.unwrap_or_default()` is not a list) instead of refusing it
     varValueNotCoerced         variable values are never checked against the variable's declared
                                type, required variables may be missing
+    literalUncheckedBesideVar  ArgumentsOfCorrectType skips an argument literal altogether when it
+                               mentions a variable without supplied value (`into_const_with`
+                               fails): unknown input-object keys, wrong leaves, … beside such a
+                               variable are never checked; repaired = the literal is checked with
+                               that variable accepted at its position
 -/
 import AGV.Spec.Coerce
 import AGV.Model.Scalars
@@ -38,10 +43,11 @@ structure Defects where
   omittedVarSkipsArgDefault : Bool := false
   nullToSingletonList : Bool := false
   varValueNotCoerced : Bool := false
+  literalUncheckedBesideVar : Bool := false
   deriving DecidableEq, Repr
 
 def Defects.none : Defects := {}
-def Defects.pinned : Defects := ⟨true, true, true⟩
+def Defects.pinned : Defects := ⟨true, true, true, true⟩
 
 -- ------------------------------------------------------------------ context.rs
 
@@ -317,15 +323,56 @@ def toConstFields (raw : List (String × GValue)) : List (String × DValue) → 
     | _, _ => none
 end
 
+mutual
+/-- the repair of `literalUncheckedBesideVar`: `is_valid_input_value` on a literal, a supplied
+    variable standing for its value, a variable without supplied value accepted at its position
+    (and counting as a provided key) -/
+def isValidP (T : Table) (raw : List (String × GValue)) : TypeRef → DValue → Bool
+  | ty, .var n =>
+    match lookup raw n with
+    | some v => isValid T ty v
+    | none => true
+  | ty, .null => !ty.isNonNull
+  | ty, .list xs =>
+    match ty.nullable with
+    | .list t => isValidPList T raw t xs
+    | .named n => (match T.find? n with | some (.input _ _) => true | _ => false)
+    | .nonNull _ => false
+  | ty, .obj fs =>
+    match T.find? ty.base with
+    | some (.input oneOf fields) =>
+      (!oneOf || (match fs with
+          | [(_, v)] => (match toConst raw v with | some .null => false | _ => true)
+          | _ => false))
+        && isValidPEntries T raw fields fs
+        && fields.all (fun f => (lookup fs f.name).isSome || !f.ty.gql.isNonNull || f.default.isSome)
+    | _ => false
+  | ty, .int i => isValidLeaf T ty.base (.int i)
+  | ty, .float t => isValidLeaf T ty.base (.float t)
+  | ty, .str s => isValidLeaf T ty.base (.str s)
+  | ty, .bool b => isValidLeaf T ty.base (.bool b)
+  | ty, .enum n => isValidLeaf T ty.base (.enum n)
+def isValidPList (T : Table) (raw : List (String × GValue)) (t : TypeRef) : List DValue → Bool
+  | [] => true
+  | x :: xs => isValidP T raw t x && isValidPList T raw t xs
+def isValidPEntries (T : Table) (raw : List (String × GValue)) (fields : List InField) :
+    List (String × DValue) → Bool
+  | [] => true
+  | (k, v) :: rest =>
+    (match fields.find? (·.name = k) with
+     | some f => isValidP T raw f.ty.gql v
+     | none => false) && isValidPEntries T raw fields rest
+end
+
 /-- ArgumentsOfCorrectType + ProvidedNonNullArguments on one field -/
-def fieldValid (T : Table) (raw : List (String × GValue)) (sig : FieldSig)
+def fieldValid (D : Defects) (T : Table) (raw : List (String × GValue)) (sig : FieldSig)
     (provided : List (String × DValue)) : Bool :=
   sig.args.all (fun a =>
     match lookup provided a.name with
     | none => !a.ty.gql.isNonNull || a.default.isSome
     | some dv =>
       match toConst raw dv with
-      | none => true
+      | none => D.literalUncheckedBesideVar || isValidP T raw a.ty.gql dv
       | some c => isValid T a.ty.gql c)
 
 /-- DefaultValuesOfCorrectType -/
@@ -378,7 +425,7 @@ def run (D : Defects) (T : Table) (op : OpDef) (raw : List (String × GValue)) :
   let valid :=
     varDefaultsValid T op.vars
       && fs.all (fun f => match T.field? f.2.1 with
-          | some sig => fieldValid T raw sig f.2.2
+          | some sig => fieldValid D T raw sig f.2.2
           | none => false)
       && (D.varValueNotCoerced || varValuesValid T op.vars raw)
   if !valid then { status := .reqerr, fields := fs.map (fun f => (f.1, .notInvoked)) }
